@@ -297,7 +297,124 @@ op("rsub_scalar", "df", lambda x: x[["a", "b", "u"]].rsub(10), tier=2)
 # a dtype mapping whose keys are substrings of each other, a rename mapping with an absent key that targets a real label
 op("astype_substr_keys", "df", lambda x: x.rename(columns={"d": "ab"}).astype({"a": "float32", "ab": "float64"}), tier=2)
 op("rename_absent_key", "df", lambda x: x.rename(columns={"zz": "a", "b": "B"}), tier=2)
+# elementwise operations whose operands have DIFFERENT rows (aligned on labels: result as long as the union)
+op("add_filtered", "df", lambda x: x["b"][x["b"] > 2] + x["a"], lsens=True, tier=2)
+op("add_filtered_frames", "df", lambda x: x[x["a"] > 2][["a", "u"]] + x[x["u"] > 4][["a", "u"]], lsens=True, tier=2)
 op("twice_partitions", "any", lambda x: _concat([x.partitions[[0]], x.partitions[[1]]]), pd=None, tags=("twice", "daskonly", "psens"), tier=2)
+
+
+# --------------------------------------------------------------------------
+# tier 3 (second block): expression classes with rewrite / lowering rules of their own that nothing above constructs
+# (read off the rule-coverage report of C01: AssignAlign, UFuncAlign, ExplodeFrame, GroupByBFill/FFill/Shift, Resample*,
+# RollingAgg, Unaryop, SemiMerge, BroadcastJoin, JoinRecursive, MergeAsof, RepartitionFreq, CustomReduction, GetCategories,
+# Describe*, MapOverlapAlign, ToTimestamp ...)
+# --------------------------------------------------------------------------
+def _other_layout(x, cols):
+    """The base table T in another partitioning (2 partitions): operands that need alignment."""
+    from mc import tables
+
+    if isinstance(x, (pd.DataFrame, pd.Series)):
+        return tables.dask_dtypes(tables.T)[cols]
+    return tables.source("T:2")[cols]
+
+
+def _merge_asof(x):
+    from mc import tables
+
+    if isinstance(x, pd.DataFrame):
+        return pd.merge_asof(x.sort_values("u", kind="stable"), tables.T2.sort_values("e")[["e", "b"]], left_on="u", right_on="e", suffixes=("", "_r"))
+    import dask_expr as dx
+
+    return dx.merge_asof(x.sort_values("u"), tables.source("T2:2").sort_values("e")[["e", "b"]], left_on="u", right_on="e", suffixes=("", "_r"))
+
+
+def _red_chunk(s):
+    return s.sum()
+
+
+def _red_agg(s):
+    return s.sum()
+
+
+def _custom_reduction(x):
+    if isinstance(x, pd.DataFrame):
+        return x["u"].sum()
+    return x["u"].reduction(_red_chunk, aggregate=_red_agg, meta=("u", "int64"))
+
+
+def _categorize(x):
+    if isinstance(x, pd.DataFrame):
+        return x.astype({"c": "category"})
+    return x.categorize(columns=["c"])
+
+
+def _ufunc_align(x):
+    return np.add(x["a"], _other_layout(x, "u"))
+
+
+op("neg", "any", lambda x: -_num(x), tier=3)
+op("filt_invert", "df", lambda x: x[~(x["a"] > 2)], tier=3)
+op("assign_align", "df", lambda x: x.assign(z=_other_layout(x, "b")), lsens=True, tier=3)
+op("ufunc_align", "df", _ufunc_align, lsens=True, tier=3)
+op("explode_frame", "df", lambda x: x.explode("c"), tier=3, tags=("dup",))
+op("gb_a_ffill", "df", lambda x: x.groupby("a")["b"].ffill(), osens=True, tier=3)
+op("gb_a_bfill", "df", lambda x: x.groupby("a")[["b", "u"]].bfill(), osens=True, tier=3)
+op("gb_a_shift", "df", lambda x: x.groupby("a")["u"].shift(1), osens=True, tier=3)
+op("gb_a_cumcount", "df", lambda x: x.groupby("a")["b"].cumcount(), osens=True, tier=3)
+op("gb_a_std", "df", lambda x: x.groupby("a")["b"].std(), order="lose", labels="new", tier=3)
+op("gb_a_count_min", "df", lambda x: x.groupby("a").agg({"b": ["count", "min"], "u": "max"}), order="lose", labels="new", tier=3)
+op("resample_sum", "df", lambda x: _num(x).resample("2D").sum(), order="sorted", labels="new", tier=3)
+op("resample_agg", "df", lambda x: _num(x).resample("3D").agg("max"), order="sorted", labels="new", tier=3)
+op("resample_count_s", "df", lambda x: x["b"].resample("2D").count(), order="sorted", labels="new", tier=3)
+op("rolling_agg", "any", lambda x: _num(x).rolling(2).agg("sum"), osens=True, tier=3)
+op("rolling3_mean_mp1", "any", lambda x: _num(x).rolling(3, min_periods=1).mean(), osens=True, tier=3)
+op("merge_T2_semi", "df", lambda x: x.merge(_T2(x), on="a", how="leftsemi"), pd=lambda x: x[x["a"].isin(_T2(x)["a"])], order="lose", labels="lose", tier=3)
+op("merge_T2_bcast", "df", lambda x: x.merge(_T2(x), on="a", how="inner", broadcast=True), pd=lambda x: x.merge(_T2(x), on="a"), order="lose", labels="lose", tier=3, tags=("dup",))
+op("merge_T2_left_bcast", "df", lambda x: x.merge(_T2(x), on="a", how="left", broadcast=True), pd=lambda x: x.merge(_T2(x), on="a", how="left"), order="lose", labels="lose", tier=3, tags=("dup",))
+op("merge_left_index", "df", lambda x: x.merge(_T2(x).set_index("a") if not isinstance(x, pd.DataFrame) else _T2(x).set_index("a"), left_on="a", right_index=True, how="left"), order="lose", labels="lose", tier=3, tags=("dup",))
+op("join_multi", "df", lambda x: x[["a"]].join([x[["b"]], x[["u"]]]), lsens=True, tier=3)
+op("merge_asof", "df", _merge_asof, order="lose", labels="lose", tier=3)
+op("repart_freq", "any", lambda x: x.repartition(freq="3D"), pd=ident, tier=3)
+op("custom_reduction", "df", _custom_reduction, tier=3)
+op("categorize", "df", _categorize, tier=3)
+op("describe_str", "df", lambda x: x[["c"]].describe(), approx=True, tier=3)
+op("median_approx", "df", lambda x: x["b"].median_approximate() if not isinstance(x, pd.DataFrame) else x["b"].median(), approx=True, tier=3)
+op("s_map_fn", "df", lambda x: x["a"].map(_map_fn), tier=3)
+op("index_plus", "any", lambda x: (x.index + 100).to_series(), lsens=True, tier=3)
+op("s_add_prefix", "df", lambda x: x["b"].add_prefix("r"), lsens=True, tier=3)
+op("index_map", "any", lambda x: x.index.map(_map_fn), lsens=True, tier=3)
+op("rename_index_sorted", "df", lambda x: x["b"].rename(index=_map_fn, sorted_index=True) if not isinstance(x, pd.DataFrame) else x["b"].rename(index=_map_fn), lsens=True, tier=3)
+op("std_b", "df", lambda x: x["b"].std(), tier=3)
+op("sem_skew", "df", lambda x: x[["a", "b", "u"]].sem(), order="sorted", labels="new", tier=3)
+op("idxmin_frame", "df", lambda x: x[["a", "b", "u"]].idxmin(), order="sorted", labels="new", lsens=True, osens=True, tier=3)
+op("nunique_frame", "df", lambda x: x[["a", "d"]].nunique(), order="sorted", labels="new", tier=3)
+op("isin_frame", "df", lambda x: x[["a", "d"]].isin([1, 2]), tier=3)
+op("where_other", "df", lambda x: x[["a", "u"]].where(x["a"] > 2, x[["a", "u"]] * 10), tier=3)
+op("mask_frame_other", "df", lambda x: x[["a", "b"]].mask(x["b"].isna(), -1), tier=3)
+op("fillna_series", "df", lambda x: x["b"].fillna(x["a"]), tier=3)
+op("bfill_limit", "any", lambda x: x.bfill(limit=1), osens=True, tier=3)
+op("shift_neg2", "any", lambda x: x.shift(-2), osens=True, tier=3)
+op("diff_neg1", "any", lambda x: _num(x).diff(-1), osens=True, tier=3)
+op("cumprod_min", "df", lambda x: x["a"].cumprod() - x["u"].cummin(), osens=True, tier=3)
+op("drop_dup_keep_last", "df", lambda x: x.drop_duplicates(subset=["a"], keep="last"), order="lose", labels="lose", osens=True, tier=3)
+op("value_counts_sort_false", "s", lambda x: x.value_counts(sort=False), order="lose", labels="new", tier=3)
+op("nlargest_s_first", "df", lambda x: x["u"].nlargest(3), order="sorted", tier=3, tags=("by_u",))
+op("assign_two", "df", lambda x: x.assign(p=x["a"] + x["u"], q=x["b"] * 2)[["q", "p", "a"]], tier=3)
+op("drop_then_sel", "df", lambda x: x.drop(columns=["d", "c"])[["u", "a"]], tier=3)
+op("setitem_like", "df", lambda x: x.assign(a=x["u"], u=x["a"]), tier=3)
+op("sort_a_desc_u", "df", lambda x: x.sort_values(["a", "u"], ascending=[False, True]), order="sorted", tier=3, tags=("by_u",))
+op("sort_b_nafirst", "df", lambda x: x.sort_values(["b", "u"], na_position="first"), order="sorted", tier=3, tags=("by_u",))
+op("set_index_u_drop_false", "df", lambda x: x.set_index("u", drop=False), pd=lambda x: x.set_index("u", drop=False).sort_index(), order="sorted", labels="new", tier=3, tags=("by_u",))
+op("set_index_sorted_flag", "df", lambda x: x.sort_values("u").set_index("u", sorted=True) if not isinstance(x, pd.DataFrame) else x.sort_values("u").set_index("u"), order="sorted", labels="new", tier=3, tags=("by_u", "user_div"))
+op("head2_np2", "any", lambda x: _head(x, 2, npartitions=2), pd=None, osens=True, tags=("psens", "daskonly"), tier=3)
+op("part_slice", "any", lambda x: x.partitions[1:], pd=None, tags=("psens", "daskonly"), tier=3)
+op("to_frame_named", "s", lambda x: x.to_frame(name="nm"), tier=3)
+op("s_between_filter", "s", lambda x: x[x.between(1, 4)], tier=3)
+op("s_isin_idx", "df", lambda x: x[x.index.isin([1, 3, 5, 7])] if isinstance(x, pd.DataFrame) else x[x.index.to_series().isin([1, 3, 5, 7])], lsens=True, tier=3)
+
+
+def _map_fn(v):
+    return v * 2 + 1
 
 
 def _assign_zz(x):
@@ -482,3 +599,22 @@ def build(src, opnames, pandas=False):
 
 def alphabet(tier):
     return [o for o in OPS.values() if o.tier <= tier]
+
+
+# the handful of operations every other operation is paired with when the full pair space is too large: one of each kind of
+# consumer / producer the rewrite rules distinguish (projection, filter, assign, rename, index reset, row / partition selection,
+# repartition, reduction, length, index, sort / set_index, join, groupby)
+CORE0 = ("proj_ab", "col_b", "filt_a_gt2", "assign_z", "rename_ab", "reset_index", "head3", "part1", "repart2", "sum", "len",
+         "index", "set_index_u", "merge_T2_inner", "gb_a_agg", "tail3")
+
+
+def alphabet_spec(spec):
+    """int n: every operation of tier <= n; "=n": exactly tier n; "core0": the CORE0 subset."""
+    if isinstance(spec, int):
+        return alphabet(spec)
+    if spec == "core0":
+        return [OPS[n] for n in CORE0]
+    if isinstance(spec, str) and spec.startswith("="):
+        t = int(spec[1:])
+        return [o for o in OPS.values() if o.tier == t]
+    raise ValueError(spec)
